@@ -30,6 +30,10 @@ mod sync;
 
 #[cfg(feature = "cloud")]
 mod cloud;
+#[cfg(all(gothenburgbitfactory_taskchampion_verif, feature = "cloud"))]
+pub(crate) use cloud::verif as verif_cloud;
+#[cfg(all(gothenburgbitfactory_taskchampion_verif, feature = "encryption"))]
+pub(crate) use encryption::verif_hooks as verif_encryption;
 
 #[cfg(feature = "server-git")]
 mod gitsync;
